@@ -130,6 +130,12 @@ def schedule_rules(rep, repo):
     rep.ob('C07.level', 'levels[op[1]] = current_level after the test', ok)
     if not ok:
         rep.violate('C07.level', smod, init, asg[0] if asg else 'levels[op[1]] = current_level', 'the output line level must be set to current_level after the level test, on every path (not inside the if)', node=P.level_loop)
+    # ... and on every iteration: no op may skip the test, the level record or the reference counting
+    skips = [n for n in ast.walk(P.level_loop) if isinstance(n, (ast.Continue, ast.Break, ast.Return))]
+    rep.ob('C07.level', 'the levelisation loop has no continue/break/return', not skips)
+    for n in skips:
+        rep.violate('C07.level', smod, init, n, 'the levelisation loop must run completely for every op (level test, levels[op[1]] = current_level, reference counts): '
+                    'an op that skips it keeps level 0 / is not counted, so its readers may be put into its own level', node=n)
     for w in ("self.level_starts=np.asarray(level_starts,dtype='int32')", "self.level_stops=np.asarray(level_starts[1:]+[len(self.ops)],dtype='int32')"):
         ok = w in inits
         rep.ob('C07.level', w, ok)
